@@ -126,6 +126,18 @@ def run(ctx):
         t = X.gen_plain(rng, rng.choice([2, 3, 4]), "d")
         cases.append({"tree": t, "mode": rng.choice(["n0", "wrap"]), "ops": gen_history(rng, t, rng.randrange(1, 9))})
     ctx.evaluate("history", cases, check_history, nontrivial=lambda c: len(c["ops"]) > 1)
+    # exhaustive small scope: every small tree, every position, one write (scalar and container)
+    nmax = 4 if ctx.tier == "thorough" else 3
+    ex = []
+    for t in X.small_trees(nmax):
+        for p, _ in X.positions(t):
+            if p:
+                xp = X.render_rel(t, p)
+                if "/" in xp or "[" in xp:
+                    for v in ("V", {"z": []}):
+                        ex.append({"tree": t, "mode": "n0", "ops": [{"pos": list(p), "xp": xp, "v": v}]})
+    ctx.evaluate("history/exhaustive", ex, check_history)
+    ctx.extra["exhaustive_subspace"] = "all dict-rooted trees with <= %d nodes below the root, every position addressed through an xpath, one write" % nmax
     # B: each step of each history, model vs implementation, starting from the implementation's state
     steps = []
     for c in cases:
